@@ -360,6 +360,13 @@ func (c *Ctx) bitAnd(a, b string, t types.Type, reach string) string {
 			if n.Sign() == 0 {
 				return "0"
 			}
+			// contiguous mask 2^hi - 2^lo (e.g. 0xF0): x & mask == (x mod 2^hi) - (x mod 2^lo) for non-negative x
+			lo := n.TrailingZeroBits()
+			hi := uint(n.BitLen())
+			if new(big.Int).Add(n, pow2(lo)).Cmp(pow2(hi)) == 0 && isUnsigned(t) {
+				x := c.bind("bx", "Int", pr[0])
+				return sub(app("mod", x, pow2(hi).String()), app("mod", x, pow2(lo).String()))
+			}
 		}
 	}
 	r := c.fresh("bitand", "Int")
